@@ -10,11 +10,18 @@
        covered by the first theorem plus the oracle on the correspondence run);
      - afterwards every submission fails at once with the disconnect error;
      - afterwards no operation of the application can cause a write.
-   Not proved as a theorem: "no id is ever resolved twice" over whole traces (needs the id
-   uniqueness bookkeeping); it is decided by the oracle on every explored history. *)
+   "No id is ever resolved twice" over whole traces follows from C03_model_is_reference for the
+   histories it covers, and is proved outright at command level (below).
+   Caller-side cancellation (Deferred.cancel(), an expired addTimeout) is treated at command level
+   (Spec/C03Cancel.v, Model/CtlCancel.v, Proofs/C03Cancel.v: whole replies, one `called` flag per
+   command): C03_cancel_* - the model of queue_command / _maybe_issue_command / reply dispatch /
+   connectionLost IS the reference machine for every operation sequence; no command is resolved twice;
+   after the loss every submitted command is resolved (by its reply, by the caller, or by the loss);
+   nothing is written after the loss. *)
 From Coq Require Import List Bool Ascii Arith NArith.
 From TxVerif Require Import Lib.Bytes Spec.Ctl Model.CtlProto Proofs.CtlInv.
 From TxVerif Require Import Spec.CtlOracle Proofs.CtlRefine Proofs.CtlRefine3.
+From TxVerif Require Import Spec.C03Cancel Model.CtlCancel Proofs.C03Cancel.
 Import ListNotations.
 
 Theorem C03_loss_clears_everything : forall s,
@@ -62,6 +69,33 @@ Theorem C03_model_is_reference : forall lbehs items ops tr,
   run lbehs init ops = fst (a_run lbehs (a_init items) ops).
 Proof. exact model_is_reference. Qed.
 Print Assumptions C03_model_is_reference.
+
+(* ---- command level, with caller-side cancellation: every operation sequence ---- *)
+Theorem C03_cancel_model_is_reference : forall ops, q_run ops = q_ref ops.
+Proof. exact model_is_reference_cancel. Qed.
+Print Assumptions C03_cancel_model_is_reference.
+
+Theorem C03_cancel_resolved_at_most_once : forall ops tr, q_ref ops = Some tr -> NoDup (res_ids tr).
+Proof. exact cancel_resolved_at_most_once. Qed.
+Print Assumptions C03_cancel_resolved_at_most_once.
+
+Theorem C03_cancel_all_resolved_after_loss : forall ops tr, q_ref ops = Some tr -> In QLose ops ->
+  forall k, (k < n_submits ops)%N -> In k (res_ids tr).
+Proof. exact cancel_all_resolved_after_loss. Qed.
+Print Assumptions C03_cancel_all_resolved_after_loss.
+
+Theorem C03_cancel_nothing_written_after_loss : forall pre post tr,
+  q_ref (pre ++ QLose :: post) = Some tr ->
+  forallb (fun e => negb (is_wrote e)) (List.concat (skipn (length pre) tr)) = true.
+Proof. exact cancel_nothing_written_after_loss. Qed.
+Print Assumptions C03_cancel_nothing_written_after_loss.
+
+(* three commands, the caller gives up on the one in flight and on a queued one, then the loss:
+   only the remaining one fails at the loss; a late submission fails at once *)
+Example C03_cancel_nonvacuous :
+  q_run [QSubmit; QSubmit; QSubmit; QCancel 0; QCancel 2; QLose; QSubmit]%N
+  = Some [[QWrote 0]; []; []; [QRes 0 QCancelled]; [QRes 2 QCancelled]; [QRes 1 QDisc]; [QRes 3 QDisc]]%N.
+Proof. vm_compute. reflexivity. Qed.
 
 (* non-vacuity: two commands outstanding and one observer, then the loss, then a late submit *)
 Example C03_nonvacuous :
